@@ -383,6 +383,23 @@ func fatNearMaxScenario(oracle string, depth int) *fatScen {
 	return &fatScen{Name: "nearmax", Cfg: fatCfg{Type: 12, Size: 8384512, Start: 512}, Letters: l, Depth: depth + 1, Oracle: oracle}
 }
 
+// fatDirFullScenario: a sub-directory that is several clusters long on a volume without a single free cluster; calls that
+// would need one more directory cluster (a create, a rename to a longer name, a mkdir) must be refused and leave the
+// directory - all of its clusters - as it was.
+func fatDirFullScenario(cfg fatCfg, oracle string, depth int) *fatScen {
+	W := func(p, off, ln string) fsOp { return fsOp{Kind: "write", Path: p, Off: off, Len: ln} }
+	pre := []fsOp{{Kind: "mkdir", Path: "D"}}
+	for i := 0; i < 30; i++ {
+		pre = append(pre, fsOp{Kind: "create", Path: fmt.Sprintf("D/entry-with-long-name-%02d.dat", i)})
+	}
+	pre = append(pre, fsOp{Kind: "fillgeo", Path: "z"})
+	long := func(tag string) string { return "D/" + tag + "-" + strings.Repeat("n", 230) + ".dat" } // 19 long-name slots: more than a cluster of 512 bytes
+	l := []fsOp{{Kind: "rename", Path: "D/entry-with-long-name-03.dat", Path2: long("renamed")}, {Kind: "create", Path: long("created")},
+		{Kind: "mkdir", Path: "D/sub"}, {Kind: "rename", Path: "D/entry-with-long-name-05.dat", Path2: "D/E5.DAT"}, {Kind: "remove", Path: "D/entry-with-long-name-29.dat"}, W("D/entry-with-long-name-07.dat", "0", "c+1"),
+		{Kind: "remove", Path: "z000"}, {Kind: "reopen"}}
+	return &fatScen{Name: "dirfull", Cfg: cfg, Prefix: pre, Letters: l, Depth: depth, Oracle: oracle}
+}
+
 // fatFillScenario: fill / empty / refill on small volumes, explored to fixpoint.
 func fatFillScenario(cfg fatCfg, oracle string, depth int) *fatScen {
 	W := func(p, ln string) fsOp { return fsOp{Kind: "write", Path: p, Off: "0", Len: ln} }
